@@ -81,6 +81,15 @@ CHECKS["C08"] = ("fault_enumeration",
   "48/384 end-to-end histories of 6-12 s wall-clock (several 1 s ack ticks): start offsets {0,1,2^31-5,2^40} x traffic plans (early burst then idle, burst-idle-burst, steady trickle) x drop plans (none, at a command boundary, inside a command, one byte after a boundary, twice, while idle) x resume on/off. Every ACK <= start+written and non-decreasing; after 2.7 s of silence ACK == start+total; every reconnect sends PSYNC <announced id> <start+received+1>; the final target equals the reference history (a lost or repeated byte changes INCR/APPEND/RPUSH results); with resume on every stored checkpoint offset is the end of a forwarded command.",
   "Trusted: lib/fakesource bookkeeping (drops are graceful closes, so written == received). Timing enters only through the 2.7 s quiet period (>= 2 ticks).", "DESIGN.md §5/C08")
 
+CHECKS["C06"] = ("exploration",
+  "reference-predicate monitor plus cross-path agreement: the same generated keyspace pushed through full sync, restore mode, rump and the incremental path under the same configuration against model peers; arrival sets compared with a reference filter and pairwise",
+  "(a) 200k/2M x 4 predicate evaluations (FilterKey, FilterDB, FilterSlot, FilterCommands) against lib/reffilter on keys built from the listed prefixes truncated/extended by one byte, hash tags, checkpoint-key variants and random bytes, database numbers incl. string-prefix neighbours (1 vs 10), command names in any letter case, under random list configurations. (b) 11/88 configuration runs (none, key black/white list, db black/white list, slot list, filter.lua, combinations, a whitelist covering the checkpoint prefix) x 4 data paths on one keyspace of ~80 keys over 4 databases with 2 Lua scripts: the set of (db,key) reaching the model target must equal the reference per path (slot list only in sync's full phase; checkpoint keys never via sync/restore, never via any path once a key filter exists), the same decision for the same key in every path, Lua scripts and script commands present exactly when filter.lua is off, opinfo never forwarded.",
+  "Trusted: lib/reffilter, lib/miniredis. In the incremental path key decisions exist only for commands of the tool's table.", "DESIGN.md §5/C06")
+CHECKS["C16"] = ("exploration",
+  "model-peer monitor: the real CmdRump.Main against scripted model sources (SCAN pagination, vanishing keys, DUMP payloads in every encoding, PTTL) and a model target; final target keyspace compared with the expectation; termination observed",
+  "96/1600 Main() calls, each with 2-5 model sources (2-30 keys each over several databases in all physical encodings, TTL none/long) and one model target: scripted SCAN pagination (single page, COUNT-sized, ragged pages with empty ones and sizes != COUNT, arbitrary cursor chains ending in 0), keys vanishing before DUMP or between DUMP and PTTL, big_key_threshold {60,120,400,50 MiB} so that element-wise expansion and plain RESTORE both occur, key_exists none/rewrite with pre-existing target keys, target.db, db/key filters, key-file driven scans with a listed but non-existent key. The target must hold exactly the expected keys: logical value, remaining TTL within the run's duration, right database; nothing else written; Main returns.",
+  "Trusted: lib/miniredis as source and target, lib/rdbgen payloads. Cloud scanners and cluster targets out of reach; pttl == 0 not generated.", "DESIGN.md §5/C16")
+
 PENDING_REASON = "monitor not built yet in this revision of /verif (planned in DESIGN.md §5); no claim is made"
 
 def main():
